@@ -1,3 +1,4 @@
+//go:build verif
 // +build verif
 
 package raft
@@ -5,6 +6,8 @@ package raft
 // Hooks for the verification harness (/verif). Compiled only with -tags verif.
 
 import (
+	"sync"
+
 	pb "github.com/marekgalovic/anndb/protobuf"
 
 	etcdRaft "github.com/coreos/etcd/raft"
@@ -22,7 +25,7 @@ func (this *RaftTransport) VerifSetClient(nodeId uint64, c pb.RaftTransportClien
 func (this *RaftGroup) VerifCampaign() error { return this.raft.Campaign(this.ctx) }
 
 func (this *RaftGroup) VerifStatus() etcdRaft.Status { return this.raft.Status() }
-func (this *RaftGroup) VerifId() uuid.UUID            { return this.id }
+func (this *RaftGroup) VerifId() uuid.UUID           { return this.id }
 
 // VerifStopAllGroups stops every raft group registered with this transport (teardown of a simulated node).
 func (this *RaftTransport) VerifStopAllGroups() {
@@ -39,3 +42,25 @@ func (this *RaftTransport) VerifStopAllGroups() {
 		}()
 	}
 }
+
+var verifSnapshotChans sync.Map // *RaftGroup -> chan chan error
+
+func (this *RaftGroup) verifSnapshotC() chan chan error {
+	c, _ := verifSnapshotChans.LoadOrStore(this, make(chan chan error))
+	return c.(chan chan error)
+}
+
+// VerifSnapshotNow makes the group's own loop take a snapshot at its last applied index now
+// (instead of waiting for the 10 s ticker and 5000 new entries).
+func (this *RaftGroup) VerifSnapshotNow() error {
+	done := make(chan error, 1)
+	select {
+	case this.verifSnapshotC() <- done:
+		return <-done
+	case <-this.ctx.Done():
+		return this.ctx.Err()
+	}
+}
+
+// VerifWAL returns the group's log store.
+func (this *RaftGroup) VerifWAL() interface{} { return this.wal }
